@@ -32,6 +32,51 @@ pub const ERR_KINDS: &[io::ErrorKind] = &[
     io::ErrorKind::UnexpectedEof,
 ];
 
+/// errno for the kinds that have one (index-aligned with ERR_KINDS; 0 = none)
+const ERR_ERRNO: &[i32] = &[111, 11, 4, 0, 110, 13, 32, 0, 22, 0];
+
+/// Custom error payload: the handler must get THE error the wrapped sink returned, not a copy rebuilt from its kind
+/// and text (a copy loses the payload's type and an OS error's code).
+#[derive(Debug)]
+pub struct ScriptedErr {
+    pub metric: String,
+}
+
+impl std::fmt::Display for ScriptedErr {
+    fn fmt(&self, f: &mut std::fmt::Formatter<'_>) -> std::fmt::Result {
+        write!(f, "scripted-error:{}", self.metric)
+    }
+}
+
+impl std::error::Error for ScriptedErr {}
+
+/// The error the scripted wrapped sink returns for `metric`: by metric hash a plain message, a typed payload, or (for
+/// kinds that have an errno) a raw OS error.
+pub fn scripted_error(k: u8, metric: &str) -> io::Error {
+    let i = k as usize % ERR_KINDS.len();
+    match crate::rng::hash_str(metric) / 7 % 3 {
+        0 => io::Error::new(ERR_KINDS[i], ScriptedErr { metric: metric.to_string() }),
+        1 if ERR_ERRNO[i] != 0 => io::Error::from_raw_os_error(ERR_ERRNO[i]),
+        _ => io::Error::new(ERR_KINDS[i], format!("scripted-error:{}", metric)),
+    }
+}
+
+/// What the handler recorder must log for that error (text + identity markers).
+pub fn describe_error(e: &io::Error) -> String {
+    let mut s = e.to_string();
+    if e.get_ref().map(|r| r.is::<ScriptedErr>()).unwrap_or(false) {
+        s.push_str(" [payload:ScriptedErr]");
+    }
+    if let Some(c) = e.raw_os_error() {
+        s.push_str(&format!(" [os:{}]", c));
+    }
+    s
+}
+
+pub fn expected_handler_msg(k: u8, metric: &str) -> String {
+    describe_error(&scripted_error(k, metric))
+}
+
 /// Blank but distinct metric strings: legal through `MetricSink::emit`, never produced by `StatsdClient`.
 pub const BLANKS: &[&str] = &["", " ", "\n", "  ", "\t", " \n", "\r\n", "   "];
 
@@ -214,7 +259,7 @@ impl MetricSink for GatedSink {
                 4 => metric.len() / 2,
                 _ => metric.len(),
             }),
-            Out::Err(k) => Err(io::Error::new(ERR_KINDS[k as usize % ERR_KINDS.len()], format!("scripted-error:{}", metric))),
+            Out::Err(k) => Err(scripted_error(k, metric)),
             Out::Panic => panic!("scripted-panic:{}", metric),
             Out::Blank(_) => Ok(metric.len()),
         }
@@ -254,7 +299,7 @@ pub fn handler_for(sh: Arc<Shared>) -> impl Fn(io::Error) + Sync + Send + std::p
     move |e: io::Error| {
         let tid = procmon::gettid();
         let on_harness_thread = procmon::is_harness_tid(tid);
-        sh.push(Ev::Handler { msg: e.to_string(), kind: e.kind(), tid, on_harness_thread });
+        sh.push(Ev::Handler { msg: describe_error(&e), kind: e.kind(), tid, on_harness_thread });
     }
 }
 
